@@ -32,7 +32,7 @@ def collect_paths(tree, cfgk):
     return gen_tree.all_paths(tree, cfgk)
 
 
-def make_app(tree, cfgk, raise_paths, log, shared_parser=None, stylers=(), unclosed=()):
+def make_app(tree, cfgk, raise_paths, log, shared_parser=None, stylers=(), unclosed=(), factories=()):
     from vf import markup as mk
 
     def tag(name, text):
@@ -40,8 +40,15 @@ def make_app(tree, cfgk, raise_paths, log, shared_parser=None, stylers=(), unclo
 
     def handler_for(path, cmd):
         class H(object):
+            def __init__(self):
+                self.calls = 0  # state of THIS handler object
+
             def handle(self, args, io, command):
                 log.append((command.full_name, args.arguments(False), args.options(False)))
+                self.calls += 1
+                if " ".join(path) in factories:
+                    # registered as a factory: the library builds a handler for every run, so this is always call 1
+                    io.write_line("call %d on this handler object" % self.calls)
                 if " ".join(path) in stylers:
                     # registers a style on the formatter of the I/O it was handed (that I/O belongs to this run)
                     from clikit.api.formatter import Style
@@ -56,6 +63,8 @@ def make_app(tree, cfgk, raise_paths, log, shared_parser=None, stylers=(), unclo
                     raise ValueError("handler of %s failed" % command.full_name)
                 return 3 if len(path) > 2 else 0
 
+        if " ".join(path) in factories:
+            return H  # a callable: Config.handler calls it whenever a handler is needed
         return H()
 
     def configure(cfg):
@@ -101,7 +110,8 @@ def check_history(ctx, case, part="history"):
     shared = part == "shared-parser"
     log = []
     try:
-        extra = {"stylers": set(case.get("stylers", [])), "unclosed": set(case.get("unclosed", []))}
+        extra = {"stylers": set(case.get("stylers", [])), "unclosed": set(case.get("unclosed", [])),
+                 "factories": set(case.get("factories", []))}
         app = make_app(tree, cfgk, raise_paths, log, DefaultArgsParser() if shared else None, **extra)
     except Exception as e:
         raise AssertionError("generator built an illegal tree: %r" % (e,))
@@ -186,6 +196,7 @@ def history_case(draw, max_steps):
         # some handlers register a style on their run's formatter / leave a tag open
         case["stylers"] = draw(st.lists(st.sampled_from(paths), max_size=2, unique=True))
         case["unclosed"] = draw(st.lists(st.sampled_from(paths), max_size=1, unique=True))
+        case["factories"] = draw(st.lists(st.sampled_from(paths), max_size=3, unique=True))
         if draw(st.booleans()):
             for s_ in steps:
                 if s_["kind"].startswith("line") and "--" not in s_["tokens"]:
